@@ -462,6 +462,7 @@ theorem runWorker_plain (pol : Policy) (cfg : Cfg) (cur : Nat) :
         exact ⟨by rw [ih.1], by rw [← ih.2]⟩
       | errExists => simp [workerTarget, applyReqs]
       | errModule => simp [workerTarget, applyReqs]
+      | errBad => simp [workerTarget, applyReqs]
 
 theorem runWorker_bisync (pol : Policy) (cfg : Cfg) (cur : Nat) :
     ∀ (es : List Entry) (st : RState) (t : Target), (∀ e ∈ es, e.db = Int.ofNat cur) →
@@ -487,6 +488,7 @@ theorem runWorker_bisync (pol : Policy) (cfg : Cfg) (cur : Nat) :
         exact ⟨by rw [ih.1], by rw [← ih.2]⟩
       | errExists => simp [workerTarget, applyReqs]
       | errModule => simp [workerTarget, applyReqs]
+      | errBad => simp [workerTarget, applyReqs]
 
 /-! ### composition: a worker's run over `a ++ b` is its run over `a` followed
     by its run over `b` from the state and target `a` left behind -/
@@ -513,6 +515,9 @@ theorem runPlain_append_ok (pol : Policy) (cfg : Cfg) :
         have := (runPlain_cons_err pol cfg st t e a rs _ st' (by simp) hr).2.1
         rw [this] at h; cases h
       | errModule =>
+        have := (runPlain_cons_err pol cfg st t e a rs _ st' (by simp) hr).2.1
+        rw [this] at h; cases h
+      | errBad =>
         have := (runPlain_cons_err pol cfg st t e a rs _ st' (by simp) hr).2.1
         rw [this] at h; cases h
 
